@@ -10,6 +10,9 @@ type Item struct{ N int64 }
 
 type Color uint8
 
+// Object: a named method-less interface type (same name as fx/a/o.Object).
+type Object interface{}
+
 type List[T any] []T
 
 type Box[T any] struct{ V *T }
